@@ -345,12 +345,41 @@ func TestNoSecretsGuard(t *testing.T) {
 		if err == nil && !c.secret && (h == nil || h.Len() != len(c.entries)) {
 			rt.Fatalf("%v\nkeyset.NewHandleWithNoSecrets: handle has %d entries", c, h.Len())
 		}
+		// exporting from the handle an import API returned: how a handle was obtained gives it no
+		// licence - "WriteWithNoSecrets fails for every keyset containing symmetric, private or
+		// unknown-type key material" (added after seeded change C13h: handles from
+		// NewHandleWithNoSecrets were flagged as already checked; together with the listed
+		// mislabelled-key finding that exported an HMAC key in the clear)
+		exportFrom := func(api string, ih *keyset.Handle) {
+			mem := &keyset.MemReaderWriter{}
+			werr := ih.WriteWithNoSecrets(mem)
+			if c.secret {
+				if werr == nil {
+					rt.Fatalf("%v\nthe handle %s returned EXPORTS through WriteWithNoSecrets although entry #%d holds secret or unknown-type key material (written keyset: %v)", c, api, c.firstAt, mem.Keyset)
+				}
+				if mem.Keyset != nil || mem.EncryptedKeyset != nil {
+					rt.Fatalf("%v\nWriteWithNoSecrets of the handle %s returned refused (%v) but wrote a keyset", c, api, werr)
+				}
+				evid.Add("export_from_imported_handle/refused", 1)
+				return
+			}
+			if werr != nil || !proto.Equal(mem.Keyset, pristine) {
+				rt.Fatalf("%v\nWriteWithNoSecrets of the handle %s returned: %v; wrote %v, want the imported keyset", c, api, werr, mem.Keyset)
+			}
+			evid.Add("export_from_imported_handle/written", 1)
+		}
+		if err == nil && h != nil {
+			exportFrom("keyset.NewHandleWithNoSecrets", h)
+		}
 		bin, err := proto.Marshal(c.ks)
 		if err != nil {
 			rt.Fatalf("proto.Marshal: %v", err)
 		}
-		_, err = keyset.ReadWithNoSecrets(keyset.NewBinaryReader(bytes.NewReader(bin)))
+		rh, err := keyset.ReadWithNoSecrets(keyset.NewBinaryReader(bytes.NewReader(bin)))
 		verdict("keyset.ReadWithNoSecrets(BinaryReader)", err)
+		if err == nil && rh != nil {
+			exportFrom("keyset.ReadWithNoSecrets(BinaryReader)", rh)
+		}
 		js, err := protojson.Marshal(c.ks)
 		if err != nil {
 			rt.Fatalf("protojson.Marshal: %v", err)
